@@ -20,6 +20,8 @@ CONSTANTS
   Deviations = {"F12", "F14"}
   MaxApps = 30
   MaxSucc = 6
+  CapX = {}
+  CapY = {}
   Depth = 60
   BootSize = 0
   WProgress = 50
